@@ -172,7 +172,9 @@ func ktIface(files map[string]string, name string) ifaceQuery {
 			}
 			c := ktCol("", t)
 			if !strings.Contains(m[4], "mutableListOf") {
-				c.Nullable = "?" // :one answers null for "no row": the column's own nullability is not visible
+				// :one answers null for "no row" (one `?`); the column's own nullability is the SECOND `?`
+				inner := ktCol("", strings.TrimSuffix(t, "?"))
+				c.Nullable = inner.Nullable
 			}
 			q.Results = []ifaceCol{c}
 		}
@@ -299,10 +301,9 @@ func pyIface(obs map[string]pyFile, name string) ifaceQuery {
 						if strings.HasPrefix(t, "Optional[") && !strings.Contains(fn.Ret, "Iterator") {
 							// :one wraps the lone column's type in Optional for "no row": the column's own
 							// nullability is not visible here
+							// (the column's own nullability is the Optional INSIDE that one)
 							t = strings.TrimSuffix(strings.TrimPrefix(t, "Optional["), "]")
-							c := pyCol("", t)
-							c.Nullable = "?"
-							q.Results = []ifaceCol{c}
+							q.Results = []ifaceCol{pyCol("", t)}
 						} else {
 							q.Results = []ifaceCol{pyCol("", t)}
 						}
@@ -448,7 +449,10 @@ func genC20(r *Rng) (string, []PQuery, []string) {
 	a, b, d := c(), c(), c()
 	n := 2 + r.Intn(4)
 	for i := 0; i < n; i++ {
-		switch r.Intn(20) {
+		switch r.Intn(22) {
+		case 20, 21:
+			// one result column, nullable or not, every command that returns rows
+			add("lone-column-plain", []string{":many", ":one"}[i%2], fmt.Sprintf("SELECT %s FROM items", d.Name))
 		case 18, 19:
 			// many placeholder occurrences (more than a dozen), the first ones used again at the end next to
 			// other columns: what a parameter is called and typed after is decided by its FIRST use
@@ -520,7 +524,7 @@ func genC20(r *Rng) (string, []PQuery, []string) {
 		case 6:
 			add("returning", ":one", fmt.Sprintf("UPDATE items SET %s = $1 WHERE id = $2 RETURNING id, %s", a.Name, a.Name))
 		case 7:
-			add("lone-column", r.Pick([]string{":one", ":many"}), fmt.Sprintf("SELECT %s FROM items WHERE %s = $1", a.Name, b.Name))
+			add("lone-column", []string{":one", ":many"}[i%2], fmt.Sprintf("SELECT %s FROM items WHERE %s = $1", a.Name, b.Name))
 		case 8:
 			add("three-out-of-order", ":many", fmt.Sprintf("SELECT id FROM items WHERE %s = $3 AND %s = $1 AND %s = $2", a.Name, b.Name, d.Name))
 		case 9:
